@@ -333,8 +333,33 @@ func (ctrl *DefaultController) importLog(ctx context.Context, store Store, log l
 					}
 				case ledger.MetaTargetTypeAccount:
 					logging.FromContext(ctx).Debugf("Saving metadata of account %s", payload.TargetID)
-					if err := store.UpdateAccountsMetadata(ctx, ledger.AccountMetadata{
-						payload.TargetID.(string): payload.Metadata,
+					address := payload.TargetID.(string)
+					// as saveAccountMetadata does: an account created by this write gets the default metadata of its chart entry
+					var defaultMetadata metadata.Metadata
+					if log.SchemaVersion != "" {
+						schema, err := store.FindSchema(ctx, log.SchemaVersion)
+						if err != nil {
+							return nil, fmt.Errorf("failed to find schema: %w", err)
+						}
+						if accountSchema, _ := schema.Chart.FindAccountSchema(address); accountSchema != nil {
+							defaultMetadata = accountSchema.DefaultMetadata()
+						}
+					}
+					if len(defaultMetadata) > 0 {
+						if err := store.UpsertAccounts(ctx, ledger.AccountWithDefaultMetadata{
+							Account: &ledger.Account{
+								Address:       address,
+								Metadata:      payload.Metadata,
+								FirstUsage:    log.Date,
+								InsertionDate: log.Date,
+								UpdatedAt:     log.Date,
+							},
+							DefaultMetadata: defaultMetadata,
+						}); err != nil {
+							return nil, fmt.Errorf("failed to update account metadata: %w", err)
+						}
+					} else if err := store.UpdateAccountsMetadata(ctx, ledger.AccountMetadata{
+						address: payload.Metadata,
 					}, log.Date); err != nil {
 						return nil, fmt.Errorf("failed to update account metadata: %w", err)
 					}
